@@ -442,3 +442,60 @@ Proof.
     + apply Z.eqb_eq in E. subst k. apply lookup_insert_same.
     + apply lookup_insert_other. intro; subst. rewrite Z.eqb_refl in E. discriminate.
 Qed.
+
+(* ================================================================ the pipeline's metrics slot *)
+Lemma nth_upd_same : forall (A : Type) k (x d : A) l, (k < length l)%nat -> nth k (upd k x l) d = x.
+Proof.
+  intros A k x d l. revert k. induction l as [|y r IH]; intros [|k] H; cbn in *; try lia.
+  - reflexivity.
+  - apply IH. lia.
+Qed.
+Lemma nth_upd_other : forall (A : Type) k j (x d : A) l, j <> k -> nth j (upd k x l) d = nth j l d.
+Proof.
+  intros A k j x d l. revert k j. induction l as [|y r IH]; intros [|k] [|j] H; cbn; try reflexivity.
+  - congruence.
+  - apply IH. congruence.
+Qed.
+
+(* p_set_metrics replaces: whatever was attached, the pipeline hands out the collector of the LAST
+   p_set_metrics, and attaching does not touch any collector *)
+Theorem slot_last_set_wins : forall k1 k2 p,
+  p_get_metrics (p_set_metrics k2 (p_set_metrics k1 p)) = Some k2 /\
+  p_take_metrics (p_set_metrics k2 (p_set_metrics k1 p)) = (Some k2, PS None (ps_colls p)) /\
+  p_get_metrics (snd (p_take_metrics (p_set_metrics k2 p))) = None.
+Proof. intros. repeat split. Qed.
+
+(* a run stamps the attached collector and no other *)
+Theorem run_touches_attached_only :
+  forall (C R : Type) (plan : outcome C) (exec : C -> outcome R) clk i j p k,
+    ps_slot p <> Some k ->
+    coll k (snd (run_on plan exec clk i j p)) = coll k p.
+Proof.
+  intros C R plan exec clk i j p k H. unfold run_on, coll.
+  destruct (ps_slot p) as [a|] eqn:E; cbn [snd ps_colls]; [|reflexivity].
+  apply nth_upd_other. intro Hk. apply H. congruence.
+Qed.
+
+(* set_metrics(m2) over an attached m1, then a successful run: m2 carries this run's stamps, the
+   pipeline hands out m2, m1 is untouched *)
+Theorem reattach_then_run :
+  forall (C R : Type) (plan : outcome C) (exec : C -> outcome R) (clk : nat -> Z)
+         (i j : nat) (p : pstate) (k1 k2 : nat) (r : R),
+    monotone clk -> (i <= j)%nat -> k1 <> k2 -> (k2 < length (ps_colls p))%nat ->
+    ms_poisoned (coll k2 p) = false ->
+    let p2 := p_set_metrics k2 (p_set_metrics k1 p) in
+    fst (run_on plan exec clk i j p2) = Ok r ->
+    let p' := snd (run_on plan exec clk i j p2) in
+    elapsed (coll k2 p') = Some (clk j - clk i)%Z /\
+    coll k1 p' = coll k1 p /\
+    fst (p_take_metrics p') = Some k2.
+Proof.
+  intros C R plan exec clk i j p k1 k2 r Hmono Hij Hne Hlen Hpo p2 Hok p'.
+  unfold p', p2 in *. unfold run_on, p_set_metrics in *. cbn [ps_slot ps_colls fst snd] in *.
+  unfold coll in *. cbn [ps_colls] in *.
+  repeat split.
+  - rewrite nth_upd_same by exact Hlen.
+    destruct (elapsed_some_nonneg C R plan exec clk i j _ r Hmono Hij Hpo Hok) as [He _]. exact He.
+  - apply nth_upd_other. exact Hne.
+Qed.
+
